@@ -169,13 +169,9 @@ func (e *Enc) assert(t string) {
 }
 
 // assertTyping: side facts (typing of loaded values). Produced while a quantifier body is being evaluated they may mention
-// the bound variable; such a fact cannot be asserted at top level and is dropped (typing facts only ever help a proof).
+// the bound variable; the quantifier evaluation (eval.go, EQuant) closes such facts universally over its binders, so
+// they are emitted like any other fact.
 func (e *Enc) assertTyping(t string) {
-	for _, q := range e.qbound {
-		if strings.Contains(t, q) {
-			return
-		}
-	}
 	e.assert(t)
 }
 
